@@ -20,6 +20,12 @@ class FilteredConfigParser(ObjectProxy):
       the lists returned by properties such as `pair`, `eam_density` and `eam_embed`.
     :param include: Species labels that should be returned by `pair`, `eam_density` and `eam_embed` functions."""
     ObjectProxy.__init__(self, config_parser)
+    # The labels are copied: the view keeps the species it was created with whatever the caller does
+    # with the collection afterwards, and a one-shot iterable would not survive the membership tests.
+    if not exclude is None:
+      exclude = list(exclude)
+    if not include is None:
+      include = list(include)
     # NOTE: attributes of the proxy itself must be prefixed _self_ otherwise wrapt stores them on
     # the wrapped ConfigParser, where they would be shared by every FilteredConfigParser wrapping it.
 
